@@ -66,7 +66,28 @@ def dec1_cases(ctx):
                     out.append(full[:l])
                 out.append(full + [0xEE])
                 out.append(full + [0xEE, 0xFF])
+    # a FINISHED result must not depend on any byte beyond those reported as read: every initial byte with its
+    # smallest complete head (+ payload), followed by every possible next byte, and by a copy of itself
+    for ib in range(256):
+        full = min_token(ib)
+        for t in range(256):
+            out.append(full + [t])
+        out.append(full + full)
     return [hx(b) for b in out]
+
+def min_token(ib):
+    """the shortest complete head (with payload for definite strings) starting with initial byte ib"""
+    k = arg_len(ib)
+    mt = ib >> 5
+    if mt in (2, 3) and (ib & 31) < 28:
+        if k == 0:
+            return [ib] + [0x61] * (ib & 31)
+        return [ib] + [0] * (k - 1) + [1, 0x61]
+    return [ib] + [0] * (k - 1) + ([1] if k else [])
+
+# one initial byte per (major type, argument form) class, reserved / unsupported ones included
+HEAD_CLASSES = [0x00, 0x17, 0x18, 0x19, 0x1A, 0x1B, 0x1C, 0x1F, 0x20, 0x38, 0x3B, 0x40, 0x41, 0x58, 0x5B, 0x5F, 0x60, 0x61, 0x78, 0x7F,
+                0x80, 0x81, 0x98, 0x9B, 0x9F, 0xA0, 0xA1, 0xB8, 0xBF, 0xC0, 0xD8, 0xDB, 0xE0, 0xF4, 0xF6, 0xF7, 0xF8, 0xF9, 0xFA, 0xFB, 0xFC, 0xFF]
 
 # ------------------------------------------------------------------ encoders
 ENC_INT = {"uint8": 8, "uint16": 16, "uint32": 32, "uint64": 64, "uint": 64, "negint8": 8, "negint16": 16, "negint32": 32, "negint64": 64,
@@ -196,6 +217,15 @@ def frag_cases(ctx):
                 [0x5B, 0xFF, 0xFF, 0xFF, 0xFF, 0xFF, 0xFF, 0xFF, 0xFF, 0x01, 0x02], [0x7B, 0xFF, 0xFF, 0xFF, 0xFF, 0xFF, 0xFF, 0xFF, 0xF7, 0x01],
                 [0x5A, 0xFF, 0xFF, 0xFF, 0xFF, 0x00]]
     out = []
+    # every ordered pair of head classes, and every initial byte followed by itself: one-shot, cut at the token
+    # boundary, byte-at-a-time (a decoder that peeks at the next token answers differently in the three deliveries)
+    pairs = [(a, b) for a in HEAD_CLASSES for b in HEAD_CLASSES] + [(a, a) for a in range(256)]
+    for a, b in pairs:
+        ta, tb = min_token(a), min_token(b)
+        s = ta + tb
+        out.append([s]); out.append([ta, tb]); out.append([[x] for x in s])
+        if len(ta) > 1:
+            out.append([ta[:1], ta[1:] + tb])
     for s in streams:
         n = len(s)
         if n == 0:
